@@ -264,8 +264,14 @@ func runSetSeq(r *mon.Run, k kind, init []int, ops []int, queries *int64) {
 		case o == 2*universe+1:
 			frozen, frozenModel = u, m.clone()
 			u = u.clone()
+			// the side that is kept gets one value of its own right away, so that both sides write after the
+			// clone (a shared backing array shows only then)
+			frozen.api().Add(universe + 2)
+			frozenModel[universe+2] = true
 		default:
 			frozen, frozenModel = u.clone(), m.clone()
+			frozen.api().Add(universe + 2)
+			frozenModel[universe+2] = true
 		}
 		if w := observe(u, m, queries); w != "" {
 			fail(i, w)
